@@ -1,5 +1,6 @@
 import Gaftools.Props.C06
 import Gaftools.Props.C06b
+import Gaftools.Props.C06c
 #print axioms Gaftools.C18.runOrder_ranges
 #print axioms Gaftools.C18.numberChain_scaffold
 #print axioms Gaftools.C18.numberChain_bubble
@@ -10,3 +11,11 @@ import Gaftools.Props.C06b
 #print axioms Gaftools.C06.dfs_path_perm
 #print axioms Gaftools.C06.finish_path
 #print axioms Gaftools.C06.finish_path_rev
+#print axioms Gaftools.C06.finish_ok_inv
+#print axioms Gaftools.C06.finish_mixedSN
+#print axioms Gaftools.C06.finish_crash
+#print axioms Gaftools.C06.finish_notIncreasing
+#print axioms Gaftools.C06.chain_adjacent
+#print axioms Gaftools.C06.buildScaffold_error_iff
+#print axioms Gaftools.C06.buildScaffold_error_kind
+#print axioms Gaftools.C06.buildScaffold_ok
